@@ -174,7 +174,17 @@ func runScript(script []scriptEntry, timeoutMs, waitMs int, chunked bool, cls st
 			last = now
 		}
 	}()
-	go func() { ret <- fh.Handle(time.Date(2023, 5, 10, 12, 0, 0, 0, time.UTC), br) }()
+	panicked := make(chan struct{})
+	go func() {
+		// a panic inside Handle is the handler failing on this script (reported as "did not return, did not close"), not
+		// the end of the driver
+		defer func() {
+			if p := recover(); p != nil {
+				close(panicked)
+			}
+		}()
+		ret <- fh.Handle(time.Date(2023, 5, 10, 12, 0, 0, 0, time.UTC), br)
+	}()
 	deadline := time.After(20 * time.Second)
 collect:
 	for {
@@ -185,6 +195,8 @@ collect:
 				break collect
 			}
 			ev.Msgs = append(ev.Msgs, c13Msg{m.MessageType, tr.Ints(m.RawData)})
+		case <-panicked:
+			break collect
 		case <-deadline:
 			break collect
 		}
@@ -202,6 +214,7 @@ collect:
 		default:
 			ev.Ret = "X"
 		}
+	case <-panicked:
 	case <-time.After(5 * time.Second):
 	}
 	ev.ElapsedMs = int(time.Since(t0).Milliseconds())
